@@ -7,3 +7,23 @@ Theorem c03_source_constants :
      KPresentation; KPathtype; KBgnextn; KEndextn; KPropattr; KPropvalue].
 Proof. reflexivity. Qed.
 Print Assumptions c03_source_constants.
+
+(* tie (generated): the record switch of read_gds, as it stands in library.cpp today — its case labels grouped by shared
+   body (Generated.read_gds_case_groups) — is the dispatch the model uses: same groups, every group mapped to one kind,
+   different groups to different kinds, and no other record type below 256 is dispatched (RAITHPXXDATA = 98 only stores
+   vendor data that no property looks at: the model treats it as ignored) *)
+Scheme Equality for rkind.
+Theorem read_gds_switch_as_modelled :
+  read_gds_case_groups = [[0; 1; 7]; [2]; [3]; [4]; [5]; [6]; [8; 45]; [9; 90]; [98]; [10; 11]; [12]; [13]; [14; 46]; [15]; [16]; [17];
+                          [18]; [19]; [22]; [23]; [25]; [26]; [27]; [28]; [33]; [43]; [44]; [48]; [49]].
+Proof. reflexivity. Qed.
+Print Assumptions read_gds_switch_as_modelled.
+
+Theorem read_gds_dispatch_uniform_and_distinct :
+  forallb (fun g => match g with [] => false | t :: tl => forallb (fun u => rkind_beq (kind_of u) (kind_of t)) tl end) read_gds_case_groups = true
+  /\ (let ks := map (fun g => kind_of (hd 0 g)) (filter (fun g => negb (N.eqb (hd 0 g) 98)) read_gds_case_groups) in
+      forallb (fun k => negb (rkind_beq k KOther) && (N.of_nat (length (filter (rkind_beq k) ks)) =? 1)) ks = true)
+  /\ forallb (fun t => Bool.eqb (existsb (N.eqb t) (concat read_gds_case_groups)) (negb (rkind_beq (kind_of t) KOther) || (t =? 98)))
+             (map N.of_nat (seq 0 256)) = true.
+Proof. vm_compute. repeat split; reflexivity. Qed.
+Print Assumptions read_gds_dispatch_uniform_and_distinct.
